@@ -757,6 +757,110 @@ func (e *ext) c16GlueFacts() {
 		})
 	}
 	fmt.Fprintf(&e.out, "/-- package v1alpha2 outside zz_generated.{deepcopy,conversion}.go: expressions `x.MaxNoOfPodsToEvict…` (defaulting, decoding hooks) -/\ndef v1alpha2CapMentions : Nat := %d\n", mentions)
+	// 2b. the arbitration limits of MigrationControllerArgs in package v1alpha2: mentions per field outside the generated files, the
+	// shape of the one default, and the generated conversion
+	argFields := []string{"MaxMigratingGlobally", "MaxMigratingPerNode", "MaxMigratingPerNamespace", "MaxMigratingPerWorkload",
+		"MaxUnavailablePerWorkload", "SkipEvictionGates", "SkipCheckExpectedReplicas"}
+	argCode := map[string]int{}
+	for i, n := range argFields {
+		argCode[n] = i + 1
+	}
+	argMentions := make([]int, len(argFields))
+	for name, f := range e.dir(v2) {
+		if name == "zz_generated.deepcopy.go" || name == "zz_generated.conversion.go" {
+			continue
+		}
+		ast.Inspect(f, func(n ast.Node) bool {
+			if s, ok := n.(*ast.SelectorExpr); ok {
+				if c, is := argCode[s.Sel.Name]; is {
+					argMentions[c-1]++
+				}
+			}
+			return true
+		})
+	}
+	var am []string
+	for _, c := range argMentions {
+		am = append(am, fmt.Sprint(c))
+	}
+	fmt.Fprintf(&e.out, "/-- package v1alpha2 outside the generated files: expressions naming MaxMigratingGlobally, MaxMigratingPerNode, MaxMigratingPerNamespace, MaxMigratingPerWorkload, MaxUnavailablePerWorkload, SkipEvictionGates, SkipCheckExpectedReplicas -/\ndef argsLimitMentions : List Nat := [%s]\n", strings.Join(am, ", "))
+	perNodeShape := false
+	if fd := e.funcDecl(v2, "", "SetDefaults_MigrationControllerArgs"); fd != nil && fd.Body != nil {
+		for _, st := range fd.Body.List {
+			is, ok := st.(*ast.IfStmt)
+			if !ok || is.Else != nil || is.Init != nil || len(is.Body.List) != 1 {
+				continue
+			}
+			be, ok := is.Cond.(*ast.BinaryExpr)
+			if !ok || be.Op != token.EQL || c16ExprString(be.Y) != "nil" || !strings.HasSuffix(c16ExprString(be.X), ".MaxMigratingPerNode") {
+				continue
+			}
+			as, ok := is.Body.List[0].(*ast.AssignStmt)
+			if !ok || len(as.Lhs) != 1 || len(as.Rhs) != 1 || c16ExprString(as.Lhs[0]) != c16ExprString(be.X) {
+				continue
+			}
+			usesConst, others := false, 0
+			ast.Inspect(as.Rhs[0], func(n ast.Node) bool {
+				if id, ok := n.(*ast.Ident); ok {
+					switch id.Name {
+					case "defaultMaxMigratingPerNode":
+						usesConst = true
+					case "ptr", "To", "int32", "pointer", "Int32", "Int32Ptr":
+					default:
+						others++
+					}
+				}
+				return true
+			})
+			perNodeShape = usesConst && others == 0
+		}
+	} else {
+		e.fail("SetDefaults_MigrationControllerArgs not found")
+	}
+	fmt.Fprintf(&e.out, "/-- SetDefaults_MigrationControllerArgs: `if obj.MaxMigratingPerNode == nil { obj.MaxMigratingPerNode = <pointer to defaultMaxMigratingPerNode> }` -/\ndef argsPerNodeDefaultShape : Bool := %v\n", perNodeShape)
+	e.constInt(v2, "defaultMaxMigratingPerNode", "argsDefaultMaxMigratingPerNode")
+	var aconv []string
+	if fd := e.funcDecl(v2, "", "autoConvert_v1alpha2_MigrationControllerArgs_To_config_MigrationControllerArgs"); fd != nil && fd.Body != nil {
+		ast.Inspect(fd.Body, func(n ast.Node) bool {
+			as, ok := n.(*ast.AssignStmt)
+			if !ok || len(as.Lhs) != 1 || len(as.Rhs) != 1 {
+				return true
+			}
+			l, ok := as.Lhs[0].(*ast.SelectorExpr)
+			if !ok || c16ExprString(l.X) != "out" {
+				return true
+			}
+			lc, is := argCode[l.Sel.Name]
+			if !is {
+				return true
+			}
+			rc, nsel, calls := 0, 0, 0
+			ast.Inspect(as.Rhs[0], func(m ast.Node) bool {
+				switch v := m.(type) {
+				case *ast.SelectorExpr:
+					if c16ExprString(v.X) == "in" {
+						nsel++
+						rc = argCode[v.Sel.Name]
+					}
+				case *ast.CallExpr: // only type conversions through unsafe.Pointer are plain copies
+					f := c16ExprString(v.Fun)
+					if f != "unsafe.Pointer" && !strings.HasPrefix(f, "*") {
+						calls++
+					}
+				}
+				return true
+			})
+			if nsel != 1 || calls != 0 {
+				rc = 0
+			}
+			aconv = append(aconv, fmt.Sprintf("(%d, %d)", lc, rc))
+			return true
+		})
+	} else {
+		e.fail("autoConvert_v1alpha2_MigrationControllerArgs_To_config_MigrationControllerArgs not found")
+	}
+	fmt.Fprintf(&e.out, "/-- conversion of MigrationControllerArgs to the internal type: (field assigned, field it is a plain unsafe.Pointer copy of; 0 = anything else), codes in the order above -/\ndef argsConvAssigns : List (Nat × Nat) := [%s]\n", strings.Join(aconv, ", "))
+
 	// 3. conversion v1alpha2 -> internal: out.X = (*uint)(unsafe.Pointer(in.X)) for each cap, X on both sides
 	var conv []string
 	if fd := e.funcDecl(v2, "", "autoConvert_v1alpha2_DeschedulerConfiguration_To_config_DeschedulerConfiguration"); fd != nil && fd.Body != nil {
